@@ -28,8 +28,13 @@ ROOTS = {
         "Duration": "crux_time::Duration",
         "TimerId": "crux_time::TimerId",
     },
+    "kv": {
+        "KeyValueOperation": "crux_kv::KeyValueOperation",
+        "KeyValueResult": "crux_kv::KeyValueResult",
+    },
 }
 MAX_SEQ = 1  # bound on sequence / string / byte-string lengths in generated encodings
+GROUP = 4  # shapes per proof harness
 
 PRIM = {"U8": ("u8", 1), "U16": ("u16", 2), "U32": ("u32", 4), "U64": ("u64", 8), "I32": ("i32", 4), "I64": ("i64", 8)}
 
@@ -55,157 +60,177 @@ def dump_registry(which):
     return json.loads(p.stdout)
 
 
-def emit_format(fmt, reg, lines, ind, leaves):
-    """Append Rust statements that write a schema-valid encoding of `fmt` with symbolic leaves."""
-    pad = "    " * ind
+def product(lists):
+    out = [[]]
+    for alts in lists:
+        out = [a + b for a in out for b in alts]
+    return out
+
+
+def plans(fmt, reg, depth=0):
+    """every *shape* of a schema-valid encoding of `fmt`: the discrete choices (variant index of every
+    enum met on the way, option tags, lengths 0..MAX_SEQ of strings / byte strings / sequences) are
+    resolved, the leaves stay symbolic.  A shape is a list of atoms:
+      ("lit", bytes, note) | ("leaf", prim) | ("bool",) | ("strbyte",) | ("byte",)"""
+    if depth > 8:
+        raise Unsupported("recursive type")
     if isinstance(fmt, str):
         if fmt in PRIM:
-            t, n = PRIM[fmt]
-            lines.append(f"{pad}w.put(&nd::any_{t}().to_le_bytes());")
-            leaves.append(fmt)
-        elif fmt == "BOOL":
-            lines.append(f"{pad}w.put(&[u8::from(nd::any_bool())]);")
-            leaves.append(fmt)
-        elif fmt == "UNIT":
-            pass
-        elif fmt in ("STR", "BYTES"):
-            lines.append(f"{pad}{{ let len = nd::any_u8_le({MAX_SEQ}); w.put(&u64::from(len).to_le_bytes()); let mut i = 0; while i < len {{ let b = nd::any_u8(); "
-                         + ("nd::assume(b < 0x80); " if fmt == "STR" else "") + "w.put(&[b]); i += 1; } }")
-            leaves.append(fmt)
-        else:
-            raise Unsupported(f"format {fmt}")
-        return
+            return [[("leaf", fmt)]]
+        if fmt == "BOOL":
+            return [[("bool",)]]
+        if fmt == "UNIT":
+            return [[]]
+        if fmt in ("STR", "BYTES"):
+            atom = ("strbyte",) if fmt == "STR" else ("byte",)
+            return [[("lit", n.to_bytes(8, "little"), f"{fmt.lower()}[{n}]")] + [atom] * n for n in range(MAX_SEQ + 1)]
+        raise Unsupported(f"format {fmt}")
     (k, v), = fmt.items()
     if k == "TYPENAME":
-        lines.append(f"{pad}enc_{v}(w);")
         if v not in reg:
             raise Unsupported(f"type {v} referenced but not in the registry (registry not closed)")
-    elif k == "OPTION":
-        lines.append(f"{pad}if nd::any_bool() {{ w.put(&[1]);")
-        emit_format(v, reg, lines, ind + 1, leaves)
-        lines.append(f"{pad}}} else {{ w.put(&[0]); }}")
-    elif k == "SEQ":
-        lines.append(f"{pad}{{ let len = nd::any_u8_le({MAX_SEQ}); w.put(&u64::from(len).to_le_bytes()); let mut i = 0; while i < len {{")
-        emit_format(v, reg, lines, ind + 1, leaves)
-        lines.append(f"{pad}i += 1; }} }}")
-    elif k in ("TUPLE", "TUPLESTRUCT"):
-        for f in v:
-            emit_format(f, reg, lines, ind, leaves)
-    elif k == "NEWTYPESTRUCT" or k == "NEWTYPE":
-        emit_format(v, reg, lines, ind, leaves)
-    elif k == "STRUCT":
-        for field in v:
-            (_, f), = field.items()
-            emit_format(f, reg, lines, ind, leaves)
-    else:
-        raise Unsupported(f"format {k}")
+        return container_plans(v, reg, depth + 1)
+    if k == "OPTION":
+        return [[("lit", b"\x00", "none")]] + [[("lit", b"\x01", "some")] + p for p in plans(v, reg, depth + 1)]
+    if k == "SEQ":
+        out = []
+        for n in range(MAX_SEQ + 1):
+            out += [[("lit", n.to_bytes(8, "little"), f"seq[{n}]")] + p for p in product([plans(v, reg, depth + 1)] * n)]
+        return out
+    if k in ("TUPLE", "TUPLESTRUCT"):
+        return product([plans(f, reg, depth + 1) for f in v])
+    if k in ("NEWTYPESTRUCT", "NEWTYPE"):
+        return plans(v, reg, depth + 1)
+    if k == "STRUCT":
+        return product([plans(list(field.values())[0], reg, depth + 1) for field in v])
+    raise Unsupported(f"format {k}")
+
+
+def container_plans(name, reg, depth=0):
+    (kind, body), = reg[name].items()
+    if kind == "ENUM":
+        idx = sorted(int(i) for i in body)
+        if idx != list(range(len(body))):
+            raise Unsupported(f"{name}: variant indices {idx} are not contiguous from zero")
+        out = []
+        for i in idx:
+            (vname, vfmt), = body[str(i)].items()
+            head = [("lit", i.to_bytes(4, "little"), f"{name}::{vname}")]
+            if isinstance(vfmt, str):
+                if vfmt != "UNIT":
+                    raise Unsupported(f"{name}::{vname}: variant format {vfmt}")
+                out.append(head)
+            else:
+                (vk, vv), = vfmt.items()
+                if vk not in ("NEWTYPE", "TUPLE", "STRUCT"):
+                    raise Unsupported(f"{name}::{vname}: variant format {vk}")
+                out += [head + p for p in plans({vk: vv}, reg, depth + 1)]
+        return out
+    if kind == "UNITSTRUCT":
+        return [[]]
+    return plans({kind: body}, reg, depth + 1)
+
+
+def emit_plan(plan, L, pad="    "):
+    n = 0
+    for a in plan:
+        if a[0] == "lit":
+            L.append(f"{pad}w.put(&[{', '.join(str(b) for b in a[1])}]); // {a[2]}")
+            n += len(a[1])
+        elif a[0] == "leaf":
+            t, k = PRIM[a[1]]
+            L.append(f"{pad}w.put(&nd::any_{t}().to_le_bytes());")
+            n += k
+        elif a[0] == "bool":
+            L.append(f"{pad}w.put(&[u8::from(nd::any_bool())]);")
+            n += 1
+        elif a[0] == "strbyte":
+            L.append(f"{pad}{{ let b = nd::any_u8(); nd::assume(b < 0x80); w.put(&[b]); }}")
+            n += 1
+        elif a[0] == "byte":
+            L.append(f"{pad}w.put(&[nd::any_u8()]);")
+            n += 1
+    return n
+
+
+def describe(plan):
+    return " ".join(a[2] for a in plan if a[0] == "lit")
 
 
 def rust_ident(name):
     return "".join(c if c.isalnum() else "_" for c in name)
 
 
-def generate(which="time"):
-    reg = dump_registry(which)
-    roots = ROOTS[which]
-    missing = [r for r in roots if r not in reg]
-    if missing:
-        raise Unsupported(f"root types missing from the traced registry: {missing}")
+def generate(which=("time", "kv")):
+    if isinstance(which, str):
+        which = (which,)
     L = ["// GENERATED on every `./check C10` run by vlib/schema_gen.py from the registry that crux's real TypeGen traces",
          "// from /repo's current working tree.  Do not edit; the committed copy is only a build placeholder.",
          "#![allow(non_snake_case, clippy::all)]", "use crate::{nd, roundtrip, rejects, W};", ""]
-    summary = {}
-    for name, cf in reg.items():
-        (kind, body), = cf.items()
-        leaves = []
-        if kind == "ENUM":
-            n = len(body)
-            idx = sorted(int(i) for i in body)
-            if idx != list(range(n)):
-                raise Unsupported(f"{name}: variant indices {idx} are not contiguous from zero")
-            L.append(f"pub const VARIANTS_{name}: u32 = {n};")
-            L.append(f"/// schema-valid encoding of `{name}`: u32 variant index, then the variant's fields in declaration order")
-            L.append(f"pub fn enc_variant_{name}(w: &mut W, variant: u32) {{")
-            L.append("    w.put(&variant.to_le_bytes());")
-            L.append("    match variant {")
-            for i in idx:
-                (vname, vfmt), = body[str(i)].items()
-                L.append(f"        {i} => {{ // {vname}")
-                if isinstance(vfmt, str):
-                    if vfmt != "UNIT":
-                        raise Unsupported(f"{name}::{vname}: variant format {vfmt}")
+    summary, harnesses, registries = {}, [], {}
+    for proto in which:
+        reg = dump_registry(proto)
+        registries[proto] = reg
+        roots = ROOTS[proto]
+        missing = [r for r in roots if r not in reg]
+        if missing:
+            raise Unsupported(f"root types missing from the traced registry: {missing}")
+        for name, cf in reg.items():
+            (kind, body), = cf.items()
+            summary[name] = {"kind": kind.lower(), **({"variants": len(body)} if kind == "ENUM" else {})}
+        for name, path in roots.items():
+            fn = rust_ident(name).lower()
+            (kind, _), = reg[name].items()
+            shapes = container_plans(name, reg)
+            maxlen = 0
+            for i, plan in enumerate(shapes):
+                L.append(f"/// {name} shape {i}: {describe(plan) or 'fixed layout'}")
+                L.append(f"fn shape_{fn}_{i}() {{")
+                L.append("    let mut w = W::new();")
+                maxlen = max(maxlen, emit_plan(plan, L))
+                L.append(f"    roundtrip::<{path}>(&w);")
+                L.append(f"    crate::nd_cover!(true, \"{name}: {describe(plan) or 'round trip'}\");")
+                L.append("}")
+            summary[name]["shapes"] = len(shapes)
+            summary[name]["max_encoding_bytes"] = maxlen
+            # non-empty strings go through core::str::from_utf8, whose validation loop (with its pointer-alignment
+            # fast path) is the expensive part for CBMC: four such shapes in one SAT problem ran out of memory
+            # (24 GB, 15 min), so a shape with a non-empty string gets a harness of its own
+            heavy = [i for i, pl in enumerate(shapes) if any(a[0] == "strbyte" for a in pl)]
+            light = [i for i in range(len(shapes)) if i not in heavy]
+            groups = [light[i:i + GROUP] for i in range(0, len(light), GROUP)] + [[i] for i in heavy]
+            for gi, grp in enumerate(groups):
+                hname = f"c10_{proto}_{fn}" + (f"_{gi + 1}" if len(groups) > 1 else "")
+                L.append("#[cfg_attr(kani, kani::proof, kani::unwind(50))]")
+                L.append("#[cfg_attr(kani, kani::stub(core::fmt::write, crate::fmt_write_nop))]")
+                L.append(f"pub fn {hname}() {{")
+                if kind == "ENUM" or len(grp) > 1:
+                    L.append("    let v = nd::any_u32();")
+                    L.append("    match v {")
+                    for k, si in enumerate(grp):
+                        L.append(f"        {k} => shape_{fn}_{si}(),")
+                    if kind == "ENUM" and gi == 0:
+                        nvar = summary[name]["variants"]
+                        L.append(f"        _ if v >= {max(nvar, len(grp))} => {{")
+                        L.append("            // an index the schema does not define must be rejected, not taken for some variant")
+                        L.append("            let mut w = W::new();")
+                        L.append("            w.put(&v.to_le_bytes());")
+                        L.append("            w.put(&[0u8; 24]);")
+                        L.append(f"            rejects::<{path}>(&w);")
+                        L.append(f"            crate::nd_cover!(true, \"{name}: undefined variant index rejected\");")
+                        L.append("        }")
+                    L.append("        _ => nd::assume(false),")
+                    L.append("    }")
                 else:
-                    (vk, vv), = vfmt.items()
-                    if vk == "NEWTYPE":
-                        emit_format(vv, reg, L, 3, leaves)
-                    elif vk == "TUPLE":
-                        for f in vv:
-                            emit_format(f, reg, L, 3, leaves)
-                    elif vk == "STRUCT":
-                        for field in vv:
-                            (_, f), = field.items()
-                            emit_format(f, reg, L, 3, leaves)
-                    else:
-                        raise Unsupported(f"{name}::{vname}: variant format {vk}")
-                L.append("        }")
-            L.append("        _ => nd::assume(false),")
-            L.append("    }")
-            L.append("}")
-            L.append(f"pub fn enc_{name}(w: &mut W) {{ let v = nd::any_u32(); nd::assume(v < VARIANTS_{name}); enc_variant_{name}(w, v); }}")
-            summary[name] = {"kind": "enum", "variants": n}
-        else:
-            L.append(f"/// schema-valid encoding of `{name}` ({kind})")
-            L.append(f"pub fn enc_{name}(w: &mut W) {{")
-            emit_format({kind: body} if kind != "UNITSTRUCT" else "UNIT", reg, L, 1, leaves)
-            L.append("}")
-            summary[name] = {"kind": kind.lower(), "leaves": leaves}
-        L.append("")
-    # case functions and harnesses for the root types
-    for name, path in roots.items():
-        fn = rust_ident(name).lower()
-        (kind, body), = reg[name].items()
-        if kind == "ENUM":
-            n = len(body)
-            L.append(f"fn case_{fn}<const V: u32>() {{")
-            L.append("    let mut w = W::new();")
-            L.append(f"    enc_variant_{name}(&mut w, V);")
-            L.append(f"    roundtrip::<{path}>(&w);")
-            for i in range(n):
-                (vname, _), = body[str(i)].items()
-                L.append(f"    crate::nd_cover!(V == {i}, \"{name}::{vname} round trip\");")
-            L.append("}")
-            L.append("#[cfg_attr(kani, kani::proof, kani::unwind(34))]")
-            L.append("#[cfg_attr(kani, kani::stub(core::fmt::write, crate::fmt_write_nop))]")
-            L.append(f"pub fn c10_{which}_{fn}() {{")
-            L.append("    let v = nd::any_u32();")
-            L.append("    match v {")
-            for i in range(n):
-                L.append(f"        {i} => case_{fn}::<{i}>(),")
-            L.append("        _ => {")
-            L.append("            // an index the schema does not define must be rejected, not taken for some variant")
-            L.append("            let mut w = W::new();")
-            L.append("            w.put(&v.to_le_bytes());")
-            L.append("            w.put(&[0u8; 24]);")
-            L.append(f"            rejects::<{path}>(&w);")
-            L.append(f"            crate::nd_cover!(true, \"{name}: undefined variant index rejected\");")
-            L.append("        }")
-            L.append("    }")
-            L.append("}")
-        else:
-            L.append("#[cfg_attr(kani, kani::proof, kani::unwind(34))]")
-            L.append("#[cfg_attr(kani, kani::stub(core::fmt::write, crate::fmt_write_nop))]")
-            L.append(f"pub fn c10_{which}_{fn}() {{")
-            L.append("    let mut w = W::new();")
-            L.append(f"    enc_{name}(&mut w);")
-            L.append(f"    roundtrip::<{path}>(&w);")
-            L.append(f"    crate::nd_cover!(true, \"{name} round trip\");")
-            L.append("}")
-        L.append("")
+                    L.append(f"    shape_{fn}_{grp[0]}();")
+                L.append("}")
+                harnesses.append({"name": hname, "root": name, "proto": proto, "shapes": [describe(shapes[si]) or "fixed layout" for si in grp],
+                                  "undefined_indices": kind == "ENUM" and gi == 0})
+            L.append("")
     L.append("#[cfg(not(kani))]")
     L.append("pub const GENERATED_HARNESSES: &[(&str, fn())] = &[")
-    for name in roots:
-        fn = rust_ident(name).lower()
-        L.append(f"    (\"c10_{which}_{fn}\", c10_{which}_{fn}),")
+    for h in harnesses:
+        L.append(f"    (\"{h['name']}\", {h['name']}),")
     L.append("];")
     out = os.path.join(VERIF, "kani", "schema_harness", "src", "generated.rs")
     new = "\n".join(L) + "\n"
@@ -213,10 +238,13 @@ def generate(which="time"):
     if old != new:
         with open(out, "w") as f:
             f.write(new)
-    return {"registry_types": summary, "registry": reg, "generated": out, "changed_since_last_run": old is not None and old != new}
+    return {"registry_types": summary, "registry": registries, "generated": out, "harnesses": harnesses,
+            "changed_since_last_run": old is not None and old != new}
 
 
 if __name__ == "__main__":
     import sys
-    r = generate(sys.argv[1] if len(sys.argv) > 1 else "time")
+    r = generate(tuple(sys.argv[1:]) or ("time", "kv"))
     print(json.dumps(r["registry_types"], indent=1))
+    for h in r["harnesses"]:
+        print(h["name"], h["shapes"])
